@@ -522,6 +522,19 @@ pub fn scope_for(tier: Tier, prop: &str) -> TableScope {
         }
     }
     shapes.extend(rel);
+    // labels that collide under mod-64 / mod-128 bit tricks
+    let map2 = [5u8, 69, 133];
+    let ext_rel2: Vec<Vec<u8>> = ext
+        .iter()
+        .map(|x| x.iter().map(|&v| if v == 7 { 7 } else { map2[v as usize] }).collect())
+        .collect();
+    let mut rel2 = vec![];
+    for (i, (s, _)) in shapes.iter().enumerate() {
+        if s.iter().all(|&(a, b)| a <= 2 && b <= 2) && (tier == Tier::Thorough || s.len() <= 2 || i % 11 == 0) {
+            rel2.push((relabel(s, &map2), ext_rel2.clone()));
+        }
+    }
+    shapes.extend(rel2);
     let mut desc = json!({
         "G-small": {"labels": [0,1,2], "pairs": "ordered incl. self-loops", "max_edges": max_e_small,
                     "externals": "all subsets + [7] untouched + [0,0] duplicate", "relabelled": "{0,1,2}->{255,0,128}"},
@@ -572,6 +585,12 @@ pub fn run(ctx: &Ctx) -> i32 {
                 for &d in &sc.dims {
                     let mut wlist = was.clone();
                     if sc.add_big_weight {
+                        // an extreme weight hierarchy (ratio 2^60): tiny but positive, finite weights are legal
+                        if ne >= 2 && ne <= 3 {
+                            for k in 0..ne {
+                                wlist.push((0..ne).map(|e| if e == k { 2f64.powi(-60) } else { 1.0 }).collect());
+                            }
+                        }
                         wlist.push(vec![d as f64; ne]);
                         wlist.push((0..ne).map(|e| d as f64 / 2.0 + 0.25 * (e as f64 + 1.0)).collect());
                     }
